@@ -127,6 +127,12 @@ def iter (fs : FS) : Nat → St → St
   | 0, st => st
   | n + 1, st => iter fs n (step fs st)
 
+/-- `iter` that stops stepping once the machine is no longer running (`step` is the identity
+then: `iterFast_eq_iter` in Lemmas/C19.lean). Used by the driver. -/
+def iterFast (fs : FS) : Nat → St → St
+  | 0, st => st
+  | n + 1, st => if st.status = .running then iterFast fs n (step fs st) else st
+
 inductive Outcome where
   | ok (out : List Tok)
   | notFound (out : List Tok)
@@ -296,32 +302,91 @@ def texReadFile : List TLine → Nat → List Tok → ReadRes
     | .cut acc' => .ok acc' (some ls)
     | .eol acc' d' => if d' = 0 then .ok acc' (some ls) else texReadFile ls d' acc'
 
+/-- A line of a file or of the terminal before its end-of-line character is attached.
+`defEol = none`: the line ends in a comment (the end-of-line character never becomes a token);
+`some d`: what the default end-of-line character (13) becomes after these tokens (`[]` after a
+control word, `[sp]`, or `[par]` for an empty line). -/
+structure RawLine where
+  toks : List Tok
+  defEol : Option (List Tok)
+  deriving DecidableEq, Repr
+
+/-- `\endlinechar`: the default (13), none (negative), or a character of category "other". -/
+inductive Elc where
+  | default | none | other (c : Nat)
+  deriving DecidableEq, Repr
+
+/-- `RawLexer::start_new_line`: the current `\endlinechar` is pushed onto the trimmed line. -/
+def attach (e : Elc) (l : RawLine) : TLine :=
+  match l.defEol with
+  | none => l.toks
+  | some d =>
+    match e with
+    | .default => l.toks ++ d
+    | .none => l.toks
+    | .other c => l.toks ++ [.chr c]
+
+/-- A line of an open stream. The model and TeX use `raw` only: a line gets its end-of-line
+character when it is read (`Lexer::next` as repaired by fixes/C19-d.patch: an end of line is
+reported without starting the next line). `loaded` records what the *unrepaired* lexer did —
+it started the next line during the previous `\read`, to tell `EndOfLine` from `EndOfInput`,
+with the `\endlinechar` of that moment (finding C19-d) — and is read by `mat false` only, which
+no theorem and neither M nor S uses (the driver uses it to name that finding). -/
+structure Slot where
+  loaded : Option TLine
+  raw : RawLine
+  deriving DecidableEq, Repr
+
+/-- The tokens of a line when a `\read` runs under `\endlinechar = e`: `lazy = true` the
+model and TeX; `lazy = false` the unrepaired lexer. -/
+def mat (lazy : Bool) (e : Elc) (s : Slot) : TLine :=
+  match lazy, s.loaded with
+  | false, some l => l
+  | _, _ => attach e s.raw
+
+/-- `ensure_ends_in_newline` on raw lines. -/
+def rawEnsureNewline (ls : List RawLine) : List RawLine :=
+  if ls.isEmpty then [⟨[], some [.par]⟩] else ls
+
+/-- The last `k` lines stay. (The unrepaired lexer had started the first of them under `e`;
+`mat true` ignores `loaded`.) -/
+def afterRead (e : Elc) (slots : List Slot) (k : Nat) : List Slot :=
+  match slots.drop (slots.length - k) with
+  | [] => []
+  | h :: t => ⟨some (attach e h.raw), h.raw⟩ :: t
+
 inductive Op where
   | openin (n : Nat) (f : Nat)
   | closein (n : Nat)
-  | read (n : Int) (x : Nat)
+  | read (g : Bool) (n : Int) (x : Nat)     -- `g`: prefixed by `\global`
   | ifeof (n : Nat)
   | use (x : Nat)
+  | setElc (e : Elc)
+  | bgroup
+  | egroup
   deriving DecidableEq, Repr
 
 inductive RStatus where
-  | running | badStream | unmatched | termExhausted
+  | running | badStream | unmatched | termExhausted | badGroup
   deriving DecidableEq, Repr
 
 structure RSt where
-  streams : List (Option (List TLine))    -- `Component<16>.files`
-  term : List TLine
+  streams : List (Option (List Slot))    -- `Component<16>.files`
+  term : List RawLine
   macros : List (Nat × List Tok)
+  saved : List (List (Nat × List Tok) × Elc)   -- macro meanings and `\endlinechar` at the start of each open group
+  elc : Elc
   out : List Tok
   status : RStatus
   deriving DecidableEq, Repr
 
 def numStreams : Nat := 16
 
-def initR (term : List TLine) : RSt := ⟨List.replicate numStreams none, term, [], [], .running⟩
+def initR (term : List RawLine) : RSt :=
+  ⟨List.replicate numStreams none, term, [], [], .default, [], .running⟩
 
 /-- `take_file`: `None` for a negative or too large index or a closed stream. -/
-def takeFile (streams : List (Option (List TLine))) (n : Int) : Option (List TLine) :=
+def takeFile (streams : List (Option (List Slot))) (n : Int) : Option (List Slot) :=
   if n < 0 then none else (streams.getD n.toNat none)
 
 def chrT : Tok := .chr 84
@@ -329,15 +394,21 @@ def chrF : Tok := .chr 70
 def chrL : Tok := .chr 91
 def chrR : Tok := .chr 93
 
+/-- `insert_macro(cmd_ref, macro, scope)`: local, or (after `\global`) at every group level. -/
+def defMacro (g : Bool) (x : Nat) (toks : List Tok) (st : RSt) : RSt :=
+  if g then { st with macros := (x, toks) :: st.macros, saved := st.saved.map (fun m => ((x, toks) :: m.1, m.2)) }
+  else { st with macros := (x, toks) :: st.macros }
+
 /-- One primitive. `tex = true` runs the specification (TeX) instead of the model. -/
-def opStep (tex : Bool) (rfs : List (Nat × List TLine)) (st : RSt) (op : Op) : RSt :=
+def opStep (tex : Bool) (rfs : List (Nat × List RawLine)) (st : RSt) (op : Op) : RSt :=
   match st.status with
   | .running =>
     match op with
     | .openin n f =>
       if n ≥ numStreams then { st with status := .badStream }
       else
-        let ls := (lookup rfs f).map (fun l => if tex then l else ensureNewline l)
+        let ls := (lookup rfs f).map (fun l =>
+          (if tex then l else rawEnsureNewline l).map (fun r => (⟨none, r⟩ : Slot)))
         { st with streams := st.streams.set n ls }
     | .closein n =>
       if n ≥ numStreams then { st with status := .badStream }
@@ -347,20 +418,29 @@ def opStep (tex : Bool) (rfs : List (Nat × List TLine)) (st : RSt) (op : Op) : 
       else { st with out := st.out ++ [if (st.streams.getD n none).isNone then chrT else chrF] }
     | .use x =>
       { st with out := st.out ++ [chrL] ++ ((lookup st.macros x).getD [.cs x]) ++ [chrR] }
-    | .read n x =>
+    | .setElc e => { st with elc := e }
+    | .bgroup => { st with saved := (st.macros, st.elc) :: st.saved }
+    | .egroup =>
+      match st.saved with
+      | [] => { st with status := .badGroup }
+      | m :: r => { st with macros := m.1, elc := m.2, saved := r }   -- both are restored
+    | .read g n x =>
       match takeFile st.streams n with
-      | some ls =>
+      | some slots =>
+        let ls := slots.map (mat true st.elc)
         match (if tex then texReadFile ls 0 [] else readFile ls 0 []) with
         | .unmatched => { st with status := .unmatched }
         | .ok toks rem =>
-          { st with streams := st.streams.set n.toNat rem, macros := (x, toks) :: st.macros }
+          defMacro g x toks
+            { st with streams := st.streams.set n.toNat (rem.map (fun r => afterRead st.elc slots r.length)) }
       | none =>
-        match readTerm st.term 0 [] with
+        match readTerm (st.term.map (attach st.elc)) 0 [] with
         | .exhausted => { st with status := .termExhausted }
-        | .ok toks term' => { st with term := term', macros := (x, toks) :: st.macros }
+        | .ok toks term' =>
+          defMacro g x toks { st with term := st.term.drop (st.term.length - term'.length) }
   | _ => st
 
-def runOps (tex : Bool) (rfs : List (Nat × List TLine)) (term : List TLine) (ops : List Op) : RSt :=
+def runOps (tex : Bool) (rfs : List (Nat × List RawLine)) (term : List RawLine) (ops : List Op) : RSt :=
   ops.foldl (opStep tex rfs) (initR term)
 
 /-- Brace depth after a token list, `none` if it ever goes negative. -/
